@@ -202,6 +202,27 @@ func (d *drv) runSig(r *Rng, n int) {
 					hit("C19/crypto/verify/perturbed-message-accepted", "signature verifies for a message differing in one bit", map[string]interface{}{"pk": hx(pk), "msg": hx(msg), "msg2": hx(m2), "sig": hx(sig)})
 				}
 			}
+			// a signature made for M verifies for M only: not for its hash offered as a message (a 32-byte message is hashed
+			// like any other), not for M cut or padded to 32 bytes, not for the hash with a byte appended
+			pad32m := make([]byte, 32)
+			copy(pad32m, msg)
+			cut32 := pad32m
+			if len(msg) > 32 {
+				cut32 = msg[:32]
+			}
+			for _, cnd := range []struct {
+				class string
+				m     []byte
+			}{{"hash-of-the-message", keccak(msg)}, {"hash-of-the-hash", keccak(keccak(msg))}, {"cut-or-padded-to-32-bytes", cut32},
+				{"hash-with-a-byte-appended", append(keccak(msg), 0)}, {"message-with-its-hash-appended", append(append([]byte{}, msg...), keccak(msg)...)}} {
+				if bytes.Equal(cnd.m, msg) {
+					continue
+				}
+				if d.verifyCase(pk, cnd.m, sig, "msg-derived") || (cnd.class == "hash-of-the-message" && d.verifyCase(pk, cnd.m, sig[:64], "msg-derived64")) {
+					hit("C19/crypto/verify/other-message-accepted/"+cnd.class, "a signature made for a message verifies for another byte string derived from it ("+cnd.class+")",
+						map[string]interface{}{"pk": hx(pk), "msg": hx(msg), "candidate": hx(cnd.m), "sig": hx(sig)})
+				}
+			}
 			// message length changes
 			for _, m2 := range [][]byte{append(append([]byte{}, msg...), 0), msg[:len(msg)/2]} {
 				if !bytes.Equal(m2, msg) && d.verifyCase(pk, m2, sig, "msg-len") {
